@@ -227,6 +227,29 @@ def eq_covers_slots(prog: Program, res, rule: str, ci: ClassInfo, *, exceptions:
                         generic = True
         if isinstance(x, ast.Attribute) and x.attr == "__slots__":
             generic = True
+    # a comparison that iterates over an instance-dependent key set (e.g. the counts that are present) must take the
+    # keys of BOTH operands: iterating over self's keys alone ignores what only the other operand has
+    from ..dataflow import single_def_value
+
+    params = eq.param_names()
+    if len(params) >= 2:
+        me, other = params[0], params[1]
+        domains = [x.iter for x in walk_no_nested(eq.node) if isinstance(x, (ast.For, ast.comprehension))]
+        for dmn in domains:
+            d2 = dmn
+            if isinstance(d2, ast.Name):
+                d2 = single_def_value(eq.node, d2.id) or d2
+            inst_calls = [y for y in ast.walk(d2) if isinstance(y, ast.Call) and isinstance(y.func, ast.Attribute) and any(isinstance(z, ast.Name) and z.id == me for z in ast.walk(y.func.value))]
+            mentions_other = any(isinstance(z, ast.Name) and z.id == other for z in ast.walk(d2))
+            if inst_calls and not mentions_other:
+                res.violation(
+                    rule,
+                    eq,
+                    dmn,
+                    f"{ci.name}.__eq__ iterates over {unparse(dmn)[:50]}, the keys of one operand only: a component that only the other operand has is never compared (a == b although b holds more; a == b but b != a)",
+                    key_extra="eq-asymmetric-domain",
+                )
+                return
     missing = [s for s in slots if s not in read and s not in exceptions and not generic]
     if missing:
         res.violation(rule, eq, eq.node, f"{ci.name}.__eq__ does not compare attribute(s) {missing}: objects differing only there compare equal", key_extra=f"eq-misses-{'-'.join(missing)}")
